@@ -143,6 +143,17 @@ func (e *Engine) VerifyFunctionAs(fn *ssa.Function, c *Contract, panics bool, pr
 		for _, cl := range c.Requires {
 			r.addFact(env.EvalBool(cl.E))
 		}
+		// axiom instances over the parameters hold from the start (those naming results are only usable at the end)
+		for _, u := range c.Uses {
+			func() {
+				defer func() { recover() }()
+				r.addFact(env.useAxiom(u))
+			}()
+		}
+		if c.Measure != nil {
+			mc := env.coerceConst(env.Eval(c.Measure), types.Typ[types.Int])
+			rt.measure = r.toInt64(r.scalar(mc.V), mc.T)
+		}
 		// vacuity guard: the precondition must be satisfiable
 		if len(c.Requires) > 0 {
 			o := &Obligation{Name: e.relName(fn) + ":cover:requires#1", Func: e.relName(fn), Kind: "cover", Hyps: append([]*Term{}, rt.facts...), Goal: tb.True(), Cover: true, Pos: e.pos(fn.Pos()), Text: "requires is satisfiable"}
